@@ -215,6 +215,7 @@ func runStartup(scratch string, s Snap) StartupResult {
 	os.RemoveAll(scratch)
 	cfgdir := filepath.Join(scratch, ".dastard")
 	s.materialize(cfgdir)
+	writeDecoys(scratch)
 	cmd := exec.Command(bin)
 	cmd.Dir = scratch
 	cmd.Env = []string{"HOME=" + scratch, "DASTARD_VERIF_C16=settings", "PATH=" + os.Getenv("PATH")}
@@ -254,6 +255,25 @@ func runStartup(scratch string, s Snap) StartupResult {
 	}
 	os.RemoveAll(scratch)
 	return res
+}
+
+// writeDecoys puts files named like dastard's configuration file, with other contents, into the directory
+// dastard is started from: another program's config.yaml, an old copy, a config.json.  Start-up must read
+// the file the previous run saved in $HOME/.dastard all the same.
+func writeDecoys(cwd string) {
+	if err := os.MkdirAll(cwd, 0o775); err != nil {
+		panic(err)
+	}
+	decoys := map[string]string{
+		"config.yaml": "statelabel: decoy-yaml\nstatus:\n  nsamples: 77\n  npresamp: 7\nwriting:\n  basepath: /decoy/yaml\n",
+		"config.json": `{"statelabel": "decoy-json", "status": {"nsamples": 88, "npresamp": 8}, "writing": {"basepath": "/decoy/json"}}` + "\n",
+		"config.toml": "statelabel = \"decoy-toml\"\n[writing]\nbasepath = \"/decoy/toml\"\n",
+	}
+	for name, content := range decoys {
+		if err := os.WriteFile(filepath.Join(cwd, name), []byte(content), 0o664); err != nil {
+			panic(err)
+		}
+	}
 }
 
 func tail(s string, n int) string {
